@@ -131,3 +131,14 @@ Lemma tie_safe_substdio_get : forall b x p n fd script k src pos fuel (dst : lis
   Gen_substdi.RepI b x p n script k src pos -> Gen_substdi.goodI b src len -> Gen_substdi.enoughI fuel b script len -> (len <= length dst)%nat ->
   option_map (fun r => K_substdio_get.v__oob (snd r)) (K_substdio_get.run fuel x p n fd dst 0 (Z.of_nat len) script src k pos) = Some 0.
 Proof. exact Gen_substdi.safe_substdio_get. Qed.
+(* composition: ANY sequence of put / bput / flush / putflush operations run through the generated substdo.c, from an empty buffer of any
+   size, under any script of short writes, EINTR and errors: the generated code and the model stop at the same operation; while no
+   operation failed, what the descriptor accepted followed by the s->p bytes waiting in the buffer is exactly the concatenation of
+   everything that was put; in every case what the descriptor accepted is a prefix of it; and s->p never exceeds the buffer size *)
+From NQ Require Tie.Gen_stream.
+Lemma tie_generated_substdio_stream : forall (cap : nat) (scr : Substdio.wscript) (ops : list Substdio.oop) (fuel : nat),
+  (0 < cap)%nat -> Z.of_nat cap < 2 ^ 30 -> Gen_stream.ops_ok ops -> (length scr + Gen_stream.max_data ops + cap + 4 <= fuel)%nat ->
+  exists ok s, Gen_stream.c_run (Z.of_nat cap) (map Gen_substdio.enc scr) fuel {| Gen_stream.c_x := repeat 0 cap; Gen_stream.c_p := 0; Gen_stream.c_n := 0; Gen_stream.c_out := nil |} ops = Some (ok, s) /\
+    (ok = true -> Gen_stream.c_out s ++ firstn (Z.to_nat (Gen_stream.c_p s)) (Gen_stream.c_x s) = zs (flat_map Substdio.op_data ops)) /\
+    (exists rest, zs (flat_map Substdio.op_data ops) = Gen_stream.c_out s ++ rest) /\ 0 <= Gen_stream.c_p s <= Z.of_nat cap.
+Proof. exact Gen_stream.gen_substdio_stream. Qed.
